@@ -250,35 +250,92 @@ class AppDataSpec(FlowSpec):
         return v
 
 
-LAYERS = "tls_start.context.layers"
-# sample layer stacks (class names, outermost first) and whether this is the outer TLS connection of a secure web proxy
-WORLDS = [
-    (("HttpProxy", "ClientTLSLayer"), True),
-    (("HttpProxy", "ClientTLSLayer", "HttpLayer", "ClientTLSLayer"), False),  # TLS *inside* a CONNECT tunnel
-    (("HttpProxy", "HttpLayer", "ClientTLSLayer"), False),  # plain proxy, TLS after CONNECT
-    (("ReverseProxy", "ClientTLSLayer"), False),
-    (("TransparentProxy", "ClientTLSLayer"), False),
-    (("HttpUpstreamProxy", "ClientTLSLayer"), False),
-    (("ReverseProxy", "ServerTLSLayer", "ClientTLSLayer"), False),
-]
+NL = "mitmproxy/addons/next_layer.py"
+LAYER_BASES = {
+    "ClientTLSLayer": ("TLSLayer", "TunnelLayer", "Layer"),
+    "ServerTLSLayer": ("TLSLayer", "TunnelLayer", "Layer"),
+}
 
 
-def _world_atom(stack):
-    def atom(node, env):
-        if isinstance(node, ast.Attribute) and attr_chain(node) == LAYERS:
-            return list(stack)
-        if isinstance(node, ast.Call) and call_name(node) == "len" and len(node.args) == 1:
-            return len(ceval(node.args[0], env, atom, "tls_start_client condition"))
-        if isinstance(node, ast.Call) and call_name(node) == "isinstance" and len(node.args) == 2:
-            obj = ceval(node.args[0], env, atom, "tls_start_client condition")
-            cls = node.args[1]
-            names = [last_attr(e) for e in cls.elts] if isinstance(cls, ast.Tuple) else [last_attr(cls)]
-            if not isinstance(obj, str) or not all(names):
-                raise AnalysisError(f"tls_start_client: isinstance test not modelled: {norm(node)}")
-            return obj in names
-        raise NotAnAtom
+def _explicit_proxy_stacks(ctx):
+    """Layer stacks (class names below the mode layer) that NextLayer._setup_explicit_http_proxy builds for a client that starts
+    with a TLS record - read from the function's AST: the ordered `stack /= layers.X(...)` statements, one alternative per branch."""
+    fn = ctx.func(NL, "NextLayer._setup_explicit_http_proxy")
 
-    return atom
+    def pushes(stmts):  # -> list of alternatives, each a list of class names
+        alts = [[]]
+        for st in stmts:
+            if isinstance(st, ast.AugAssign) and isinstance(st.op, ast.Div) and isinstance(st.target, ast.Name) and isinstance(st.value, ast.Call):
+                name = last_attr(st.value.func)
+                ctx.require(bool(name), f"_setup_explicit_http_proxy: pushed layer not understood: {norm(st)}")
+                alts = [a + [name] for a in alts]
+            elif isinstance(st, ast.If):
+                branches = [pushes(st.body), pushes(st.orelse) if st.orelse else [[]]]
+                alts = [a + b for a in alts for br in branches for b in br]
+            elif isinstance(st, (ast.For, ast.While, ast.With, ast.Try, ast.Match)):
+                if any(isinstance(x, ast.AugAssign) for x in ast.walk(st)):
+                    raise AnalysisError(f"_setup_explicit_http_proxy: stack built inside {type(st).__name__} (not modelled)")
+        return alts
+
+    stacks = {tuple(a) for a in pushes(fn.body)}
+    tls = sorted(a for a in stacks if a and a[0] == "ClientTLSLayer")
+    ctx.require(tls, f"_setup_explicit_http_proxy builds no stack that starts with ClientTLSLayer (found {sorted(stacks)})")
+    return tls
+
+
+def _explicit_modes(ctx):
+    """Mode layer classes for which NextLayer._next_layer uses _setup_explicit_http_proxy (the isinstance tuple guarding the call)."""
+    fn = ctx.func(NL, "NextLayer._next_layer")
+    out = set()
+    for n in ast.walk(fn):
+        if isinstance(n, ast.If) and any(isinstance(c, ast.Call) and call_name(c).endswith("_setup_explicit_http_proxy") for st in n.body for c in ast.walk(st)):
+            for c in ast.walk(n.test):
+                if isinstance(c, ast.Call) and c.args:
+                    a = c.args[-1]
+                    for e in a.elts if isinstance(a, ast.Tuple) else [a]:
+                        if last_attr(e):
+                            out.add(last_attr(e))
+    ctx.require(out, "_next_layer: guard of _setup_explicit_http_proxy not understood")
+    return sorted(out)
+
+
+def _client_alpn_slice(tsc):
+    """Statements of tls_start_client that (transitively) define the `client_alpn=` argument of AppData(...), in source order."""
+    call = next((n for n in ast.walk(tsc) if isinstance(n, ast.Call) and call_name(n) == "AppData"), None)
+    if call is None:
+        raise AnalysisError("tls_start_client no longer builds AppData(...)")
+    kw = {k.arg: k.value for k in call.keywords}
+    if "client_alpn" not in kw:
+        raise AnalysisError("AppData(...) without client_alpn=")
+    params = {a.arg for a in tsc.args.args}
+    need = {n.id for n in ast.walk(kw["client_alpn"]) if isinstance(n, ast.Name)} - params
+
+    def targets(st):
+        out = set()
+        for n in ast.walk(st):
+            if isinstance(n, (ast.Assign, ast.AnnAssign, ast.AugAssign)):
+                for t in n.targets if isinstance(n, ast.Assign) else [n.target]:
+                    for x in t.elts if isinstance(t, (ast.Tuple, ast.List)) else [t]:
+                        if isinstance(x, ast.Name):  # a binding of the local, not a write through it
+                            out.add(x.id)
+            elif isinstance(n, ast.NamedExpr):
+                out.add(n.target.id)
+        return out
+
+    chosen = []
+    changed = True
+    while changed:
+        changed = False
+        for st in tsc.body:
+            if st in chosen or not (targets(st) & need):
+                continue
+            if not isinstance(st, (ast.Assign, ast.AnnAssign, ast.If)):
+                raise AnalysisError(f"tls_start_client: client_alpn defined by a {type(st).__name__} statement (not modelled)")
+            chosen.append(st)
+            need |= {n.id for n in ast.walk(st) if isinstance(n, ast.Name)} - params
+            changed = True
+    chosen.sort(key=lambda st: st.lineno)
+    return chosen, kw["client_alpn"]
 
 
 def _r18_3(ctx):
@@ -291,7 +348,7 @@ def _r18_3(ctx):
     ctx.require(not subs, f"HttpProxy has subclasses {subs}: the sample layer stacks of R18.3 must be extended")
     ctx.assume("isinstance(layer, modes.HttpProxy) holds exactly for HttpProxy itself (no subclass in proxy/layers/modes.py)")
     SSLCONN = "tls_start.ssl_conn is not None"
-    spec = AppDataSpec(keep=lambda ev: (ev[0] == "cond" and (LAYERS in ev[1] or ev[1] == SSLCONN)) or ev[0] == "appdata", implicit_raises=False)
+    spec = AppDataSpec(keep=lambda ev: (ev[0] == "cond" and ev[1] == SSLCONN) or ev[0] == "appdata", implicit_raises=False)
     res, eng = traces_of(tsc, spec)
     term = [(t, how, st) for t, how, st in res if how == "return"]
     withdata = [t for t, how, st in term if any(e[0] == "appdata" for e in t)]
@@ -316,21 +373,48 @@ def _r18_3(ctx):
             bad["http2"] += 1
     ctx.check(bad["server_alpn"] == 0, "R18.3", where, "server_alpn=server.alpn", "the upstream protocol given to the callback is not tls_start.context.server.alpn", desc="server_alpn = tls_start.context.server.alpn")
     ctx.check(bad["http2"] == 0, "R18.3", where, "http2=ctx.options.http2", "the http2 flag given to the callback is not the http2 option", desc="http2 = ctx.options.http2")
-    # client_alpn per world
-    mentions_layers = lambda n: any(isinstance(x, ast.Attribute) and attr_chain(x) == LAYERS for x in ast.walk(n))  # noqa: E731
-    ctx.require(any(e[0] == "cond" and mentions_layers(e[3]) for t in withdata for e in t), "tls_start_client: no condition on tls_start.context.layers found (secure-web-proxy rule changed shape)")
-    for stack, swp in WORLDS:
-        atom = _world_atom(stack)
-        feasible = []
-        for t in withdata:
-            if all(bool(ceval(e[3], {}, atom, "tls_start_client condition")) == e[2] for e in t if e[0] == "cond" and mentions_layers(e[3])):
-                feasible.append(t)
-        ctx.require(feasible, f"tls_start_client: no feasible path for layer stack {stack}")
-        got = {dict(next(e for e in t if e[0] == "appdata")[1])["client_alpn"] for t in feasible}
-        want = C(b"http/1.1") if swp else R("tls_start.conn.alpn")
-        ctx.check(got == {want}, "R18.3", where, f"client_alpn for layer stack [{', '.join(stack)}]",
-                  f"client_alpn is {sorted(map(str, got))}, expected {want}: " + ("the outer connection of a secure web proxy may negotiate something other than HTTP/1.1" if swp else "HTTP/1.1 is forced on a connection that is not a secure web proxy's outer connection"),
-                  desc=f"[{', '.join(stack)}] -> client_alpn {want[1]!r}")
+    # client_alpn per world: the statements defining client_alpn are interpreted (pyint) on layer stacks read from next_layer.py
+    from ..pyint import Interp
+    from ..pyint import Raised
+    from ..pyint import Rec
+
+    stmts, expr = _client_alpn_slice(tsc)
+    ctx.require(any("layers" == getattr(n, "attr", None) for st in stmts for n in ast.walk(st)), "tls_start_client: client_alpn no longer depends on context.layers (secure-web-proxy rule changed shape)")
+    inner_stacks = _explicit_proxy_stacks(ctx)
+    modes_explicit = _explicit_modes(ctx)
+    worlds = []
+    for mode in modes_explicit:
+        for st in inner_stacks:
+            worlds.append(((mode, *st), True))  # outer TLS connection of a secure web proxy, as NextLayer builds it
+            worlds.append(((mode, *st, "HttpStream", "ServerTLSLayer", "ClientTLSLayer"), False))  # TLS *inside* its CONNECT tunnel
+            worlds.append(((mode, *st, "HttpStream", "ClientTLSLayer"), False))
+        worlds.append(((mode, "HttpLayer", "HttpStream", "ServerTLSLayer", "ClientTLSLayer"), False))  # plain proxy, TLS after CONNECT
+        worlds.append(((mode, "HttpLayer", "HttpStream", "ClientTLSLayer"), False))
+    for mode in ("ReverseProxy", "TransparentProxy", "Socks5Proxy"):
+        worlds.append(((mode, "ClientTLSLayer"), False))
+        worlds.append(((mode, "ServerTLSLayer", "ClientTLSLayer"), False))
+        worlds.append(((mode, "ServerTLSLayer", "ClientTLSLayer", "HttpLayer"), False))
+    ctx.note(f"R18.3 layer stacks: explicit-proxy modes {modes_explicit}, TLS stacks built by _setup_explicit_http_proxy {inner_stacks}")
+    SENT = b"<client.alpn>"
+    tmod = m.module(T)
+    for stack, swp in worlds:
+        it = Interp(m)
+        layers = [Rec(n, _bases=LAYER_BASES.get(n, ("Layer",))) for n in stack]
+        client = Rec("Client", alpn=SENT)
+        server = Rec("Server", alpn=None)
+        tls_start = Rec("TlsData", conn=client, context=Rec("Context", layers=layers, client=client, server=server), ssl_conn=None, is_dtls=False)
+        env = {"tls_start": tls_start, "client": client, "server": server, "self": Rec("TlsConfig")}
+        try:
+            it.block(stmts, env, tmod, 0)
+            got = it.ev(expr, env, tmod, 0)
+        except Raised as r:
+            got = f"<raises {r.name}>"
+        ctx.cells += 1
+        want = b"http/1.1" if swp else SENT
+        ctx.check(got == want, "R18.3", where, f"client_alpn for layer stack [{', '.join(stack)}]",
+                  f"client_alpn is {got!r}, expected {want!r}: " + ("the outer connection of a secure web proxy may negotiate something other than HTTP/1.1" if swp else "HTTP/1.1 is forced on a connection that is not a secure web proxy's outer connection"),
+                  desc=f"[{', '.join(stack)}] -> client_alpn {'http/1.1' if swp else 'client.alpn'}")
+    n_worlds = len(worlds)
     # the callback is installed
     cc = [c for c in calls_in(tsc) if call_name(c).endswith("create_client_proxy_context")]
     ctx.require(len(cc) == 1, "tls_start_client: create_client_proxy_context call not found exactly once")
@@ -392,7 +476,7 @@ def _r18_3(ctx):
     ctx.check(leaking == 0, "R18.3", (T, "TlsConfig.tls_start_server", tss), "server.alpn_offers without h2 when http2 is off",
               f"{leaking} path(s) mirror h2 to the upstream server although http2 is disabled (or without consulting the option): upstream may negotiate h2 and the client is then given h2",
               desc="h2 filtered from mirrored offers when http2 is off")
-    ctx.expect_instances("R18.3", 3 + len(WORLDS) + 3)
+    ctx.expect_instances("R18.3", 3 + n_worlds + 3)
 
 
 def check(ctx):
@@ -422,8 +506,14 @@ MUTANTS = [
     Mutant("http1-alpns-gain-h2", PT, "HTTP1_ALPNS = (b\"http/1.1\", b\"http/1.0\", b\"http/0.9\")", "HTTP1_ALPNS = (b\"http/1.1\", b\"http/1.0\", b\"http/0.9\", b\"h2\")", "R18.2"),
     Mutant("server-preference-order", T, "    for alpn in options:\n        if alpn in http_alpns:\n            return alpn\n",
            "    for cand in http_alpns:\n        for alpn in options:\n            if alpn == cand:\n                return alpn\n", "R18.2"),
-    Mutant("secure-web-proxy-layer-count", T, "        if len(tls_start.context.layers) == 2 and isinstance(", "        if len(tls_start.context.layers) == 3 and isinstance(", "R18.3"),
-    Mutant("secure-web-proxy-or", T, "        if len(tls_start.context.layers) == 2 and isinstance(", "        if len(tls_start.context.layers) == 2 or isinstance(", "R18.3"),
+    # reverse of the F-C18b fix (91f49e320): the outer connection is recognised by "exactly two layers", which the real stack never has
+    Mutant("F-C18b-reverted-two-layers-only", T, "        if is_outer_tls and isinstance(\n            proxy_layers[0], (modes.HttpProxy, modes.HttpUpstreamProxy)\n        ):",
+           "        if len(proxy_layers) == 2 and isinstance(proxy_layers[0], modes.HttpProxy):", "R18.3"),
+    Mutant("secure-web-proxy-upstream-mode-forgotten", T, "proxy_layers[0], (modes.HttpProxy, modes.HttpUpstreamProxy)", "proxy_layers[0], modes.HttpProxy", "R18.3"),
+    Mutant("secure-web-proxy-inner-tls-also-forced", T, "            and not any(\n                isinstance(x, proxy_tls.ClientTLSLayer) for x in proxy_layers[2:]\n            )\n", "", "R18.3"),
+    Mutant("secure-web-proxy-or", T, "        if is_outer_tls and isinstance(", "        if is_outer_tls or isinstance(", "R18.3"),
+    Mutant("next-layer-builds-http-before-tls", "mitmproxy/addons/next_layer.py", "            stack /= layers.ClientTLSLayer(context)\n\n        if isinstance(context.layers[0], modes.HttpUpstreamProxy):",
+           "            stack /= layers.ClientTLSLayer(context)\n            stack /= layers.ServerTLSLayer(context)\n            stack /= layers.ClientTLSLayer(context)\n\n        if isinstance(context.layers[0], modes.HttpUpstreamProxy):", "R18.3"),
     Mutant("appdata-server-alpn-from-client", T, "                server_alpn=server.alpn,\n", "                server_alpn=client.alpn,\n", "R18.3"),
     Mutant("appdata-http2-hardcoded", T, "                http2=ctx.options.http2,\n", "                http2=True,\n", "R18.3"),
     Mutant("callback-not-passed", T, "            alpn_select_callback=alpn_select_callback,\n", "            alpn_select_callback=None,\n", "R18.3"),
